@@ -79,7 +79,11 @@ func (lh *WorkerLoop) Run(ctx context.Context) {
 			return
 
 		case msg := <-lh.MessagesChannel:
-			parsedMessage := interfaces.ToConsensusMessage(msg)
+			parsedMessage, err := interfaces.ParseConsensusMessage(msg)
+			if err != nil {
+				lh.logger.Info("LHFLOW LHMSG WORKERLOOP IGNORING RECEIVED MESSAGE - %s", err)
+				continue
+			}
 			lh.logger.Debug("LHFLOW LHMSG WORKERLOOP RECEIVED %v from %v for H=%d V=%d", parsedMessage.MessageType(), parsedMessage.SenderMemberId(), parsedMessage.BlockHeight(), parsedMessage.View())
 			lh.filter.HandleConsensusRawMessage(msg)
 
